@@ -258,6 +258,17 @@ class TaskGenerator(_OrigTaskGen):
 
 sd.TaskGenerator = TaskGenerator
 
+# one call per consumed result, in the main process, after the result has been dealt with
+_orig_progress = sd._print_progress
+
+
+def _print_progress(*a, **k):
+    log('ddmin_progress')
+    return _orig_progress(*a, **k)
+
+
+sd._print_progress = _print_progress
+
 _orig_worker = sd._worker
 
 
